@@ -39,6 +39,7 @@ RULE = (
 ASSUMPTIONS = ["bound objects are shared by design, so generated functions never mutate them", "caller-supplied values are immutable terms (only defaults are mutated)"]
 
 MUT_KINDS = ["list", "dict", "tuple_list", "nested_list"]
+UNP = lambda: None  # noqa: E731 - a run-time value that cannot be pickled (same object for every run and every twin)
 
 
 @st.composite
@@ -76,6 +77,26 @@ def _program(draw):
             if len(users) >= 2:
                 nested = None
                 break
+    if nested is not None and prob(draw, 0.4):
+        # the nested graph is a MAPPING node over a plain input of its own (ONE item per run: the items of one mapping node share
+        # a single copy of a defaulted input today - finding F29, reported by C10 - which is an effect inside one run, not between
+        # runs); a mutable-default input that only its own nodes take may be renamed on the wrapper
+        nested["map"] = True
+        nested["inner_bind"] = False
+        nested["rename_default"] = draw(st.booleans())
+        first = topo[nested["a"]]
+        first["params"] = ["mp_in"] + [q for q in first["params"]]
+        if not any(q.startswith("md_own") for q in first["params"]):
+            first["params"] = first["params"] + ["md_own"]
+            first["defaults"]["md_own"] = {"__mut__": draw(st.sampled_from(MUT_KINDS))}
+            first["mutates"] = list(first.get("mutates", [])) + ["md_own"]
+    if prob(draw, 0.3):
+        # nodes that mutate a default are CACHEABLE and also take an input that cannot be pickled (a callable): no cache key can be
+        # formed, so they run every time - on runners that carry a cache - exactly as without one
+        for n in topo:
+            if n["mutates"]:
+                n["params"] = ["unp"] + n["params"]
+                n["cache"] = True
     return {"topo": topo, "bind": bind, "nested": nested, "order": draw(st.permutations(list(range(len(topo)))))}
 
 
@@ -105,6 +126,19 @@ class Prog:
             sprod = {o for x in S for o in x["outs"]}
             s_inputs = {p for x in S for p in x["params"] if p not in sprod}
             wrapper = {"k": "graph", "name": "sub", "graph": {"nodes": [dict(x) for x in S], "name": "sub"}}
+            self.mapped_param = None
+            if spec["nested"].get("map"):
+                allprod = {o for x in topo for o in x["outs"]}
+                dflt = {q for x in topo for q in x.get("defaults", {})}
+                cands = ["mp_in"] if "mp_in" in s_inputs else []
+                if cands:
+                    self.mapped_param = cands[0]
+                    wrapper["map"] = {"params": [cands[0]], "mode": "zip", "error_handling": "raise", "before_renames": True}
+                    if spec["nested"].get("rename_default"):
+                        outside = {q for x in topo[:a] + topo[b:] for q in x["params"]}
+                        own_mut = sorted((q for x in S for q in x.get("mutates", []) if q not in outside), key=lambda q: (q != "md_own", q))
+                        if own_mut:
+                            wrapper["renames"] = [{"kind": "inputs", "map": {own_mut[0]: own_mut[0] + "_r"}}]
             nodes = [dict(x) for x in topo[:a]] + [wrapper] + [dict(x) for x in topo[b:]]
             if spec["nested"]["inner_bind"]:
                 inner_bound = {p: bound_objs[p] for p in bound_objs if p in s_inputs}
@@ -138,7 +172,8 @@ class Prog:
 
     def values(self, variant):
         g = self.graph
-        return {p: ("in", p, variant) for p in g.inputs.required}
+        mp = getattr(self, "mapped_param", None)
+        return {p: (UNP if p == "unp" else ([("in", p, variant)] if p == mp else ("in", p, variant))) for p in g.inputs.required}
 
     def twin_form(self, variant, kind, values=None, override=()):
         """First run of a freshly built copy of the same program (optionally with explicit values; `override` names bound
@@ -164,8 +199,10 @@ class State:
 
         self.progs: list[Prog] = []
         self.trace: list = []
-        self.sync = SyncRunner()
-        self.asyn = AsyncRunner()
+        from hypergraph.cache import InMemoryCache
+
+        self.sync = SyncRunner(cache=InMemoryCache())  # runners carry a cache; only nodes that cannot form a key are cacheable
+        self.asyn = AsyncRunner(cache=InMemoryCache())
         self.second_runs = 0
         self.gathers = 0
 
@@ -238,7 +275,9 @@ class State:
         if kind == "sync_shared":
             out = run_sync(pr.graph, vals, runner=self.sync)
         elif kind == "sync_fresh":
-            out = run_sync(pr.graph, vals, runner=SyncRunner())
+            from hypergraph.cache import InMemoryCache
+
+            out = run_sync(pr.graph, vals, runner=SyncRunner(cache=InMemoryCache()))
         else:
             out = run_async(pr.graph, vals, runner=self.asyn)
         self._after_run(pr, out, op["variant"], "sync" if kind.startswith("sync") else "async", f"{kind} variant {op['variant']}" + (f" override {override}" if override else ""),
@@ -251,7 +290,7 @@ class State:
         if pr is None:
             return
         base = pr.values(op["variant"])
-        names = sorted(base)
+        names = sorted(n_ for n_ in base if n_ != "unp" and n_ != getattr(pr, "mapped_param", None))
         if not names:
             return
         mapped = names[op["k"] % len(names)]
@@ -289,7 +328,7 @@ class State:
         if pr is None:
             return
         vals = pr.values(op["variant"])
-        names = sorted(vals)
+        names = sorted(n_ for n_ in vals if n_ != "unp")
         if not names:
             return
         kwname = names[op["k"] % len(names)]
